@@ -34,18 +34,38 @@ def run(ctx):
         for (b, i, tgt, rv, st) in f.stores():
             if tgt[0] == "field" and tgt[2] == L.SOFT:
                 writers.append((f, b, i, tgt, rv))
+    # judged on the path-sensitive paths of the named function the write belongs to (a closure handed to a combinator -
+    # `get_mut(k).map(|e| ..)`, `.into_iter().for_each(..)` - is run on the entry it is applied to)
+    from sym import ipaths
+    by_owner = {}
     for f, b, i, tgt, rv in writers:
-        look = [c for c in root_calls(tgt) if dashmap_call({"rpath": c[1], "gargs": ["K", "StoredValue"]})]
-        meth = dashmap_call({"rpath": look[0][1], "gargs": ["K", "StoredValue"]})[0] if look else None
-        ok = const_of(rv) == 1 and bool(look) and look[0][2][1][0] == "param"
-        ctx.check(ok, "R04.2", "%s|hide-writes-true-on-looked-up-entry" % f.name,
-                  "the soft-delete flag is set to true on the entry found under the function's key parameter (exclusive entry guard)", f.where(b, i), "%s = %s" % (fmt(tgt), fmt(rv)))
-        ctx.check(meth == "get_mut", "R04.2", "%s|hide-uses-blocking-lookup" % f.name,
-                  "the hide must wait for the entry (DashMap::get_mut): a try_* lookup reports Locked while any reader holds the shard and would silently skip the hide, leaving the deleted value readable after delete() returned",
-                  f.where(b, i), "lookup method: %s" % meth)
-        ok = ok and meth == "get_mut"
-        if ok:
-            hide[f.name] = look[0][2][1][1]
+        by_owner.setdefault(F.parent_fn(f).name, []).append((f, b, i, tgt, rv))
+    for oname in sorted(by_owner):
+        owner = F.fn(oname)
+        seen = {}
+        for p in ipaths(F, owner, stop=lambda n: False, depth=2):
+            for tgt, val, w in p.stores:
+                if tgt[0] == "field" and tgt[2] == L.SOFT:
+                    seen.setdefault((w[0] if isinstance(w[0], str) else w[0].name, w[1], w[2]), []).append((tgt, val))
+        for f, b, i, tgt0, rv0 in by_owner[oname]:
+            inst = seen.get((f.name, b, i)) or [(tgt0, rv0)]
+            ok = True
+            meths = set()
+            kparam = None
+            for tgt, rv in inst:
+                look = [c for c in root_calls(tgt) if dashmap_call({"rpath": c[1], "gargs": ["K", "StoredValue"]})]
+                meth = dashmap_call({"rpath": look[0][1], "gargs": ["K", "StoredValue"]})[0] if look else None
+                meths.add(meth)
+                ok = ok and const_of(rv) == 1 and bool(look) and look[0][2][1][0] == "param"
+                if ok:
+                    kparam = look[0][2][1][1]
+            ctx.check(ok, "R04.2", "%s|hide-writes-true-on-looked-up-entry" % oname,
+                      "the soft-delete flag is set to true on the entry found under the function's key parameter (exclusive entry guard)", f.where(b, i), "; ".join("%s = %s" % (fmt(t_), fmt(v_)) for t_, v_ in inst[:2]))
+            ctx.check(meths == {"get_mut"}, "R04.2", "%s|hide-uses-blocking-lookup" % oname,
+                      "the hide must wait for the entry (DashMap::get_mut): a try_* lookup reports Locked while any reader holds the shard and would silently skip the hide, leaving the deleted value readable after delete() returned",
+                      f.where(b, i), "lookup method: %s" % sorted(meths, key=str))
+            if ok and meths == {"get_mut"}:
+                hide[oname] = kparam
     ctx.floor("R04.2", "functions setting the soft-delete flag", len(hide), 1)
     # R04.6: constructors start with false; nobody else writes the field
     n_ctor = 0
@@ -139,10 +159,24 @@ def run(ctx):
                   "worker delete: entry removed => weight of that id released once and Accepted; nothing there => Rejected(KeyDoesNotExist) and no effect (%d rows)" % rows,
                   h.where(), "; ".join("%s via %s" % x for x in bad[:3]))
         # the key removed is the command's key
+        # (the key removed comes from the handler's parameters, and the worker hands it the Delete command's payload there)
         for b, t in h.calls():
             if t.get("rpath") in S.remove_fns:
                 k = h.op_origin(t["args"][1])
-                ctx.check(mentions(k, lambda s: s == ("param", 1)), "R04.5", "%s|removes-command-key" % h.name, "the handler removes the key carried by the command", h.where(b), fmt(k))
+                from_params = mentions(k, lambda s: s[0] == "param") and not mentions(k, lambda s: s[0] in ("var", "unknown", "built", "phi", "const") or (s[0] == "call" and s[1] != "clone"))
+                why = fmt(k)
+                if from_params:
+                    import c11
+                    from core import subst_params
+                    W_ = c11.find_worker(ctx, A)
+                    hits = []
+                    for p_ in (c11.worker_paths(ctx, A, W_) if W_ is not None else []):
+                        for e in p_.calls({h.name}):
+                            if any(mentions(a, lambda s: s[0] == "variant" and s[2] == "Delete") for a in e.args):
+                                hits.append(mentions(subst_params(k, list(e.args)), lambda s: s[0] == "variant" and s[2] == "Delete"))
+                    from_params = bool(hits) and all(hits)
+                    why = "%s; worker dispatch passes the Delete payload there: %s" % (fmt(k), hits[:4])
+                ctx.check(from_params, "R04.5", "%s|removes-command-key" % h.name, "the handler removes the key carried by the command", h.where(b), why)
     # R04.7 (= R01.4): weight is only ever charged to ids present in the weight map, so a late weight update cannot
     # re-charge a key whose delete was acknowledged
     from weight import accounting_flow
